@@ -99,6 +99,10 @@ struct Value {
         for (size_t i = 0; i <= args_len; i++) {
             char ch = args_string[i - (i == args_len)];
             if (ch == '[') {
+                // a bracket inside the parentheses of a function call - add([1 2]) - belongs to that call: the token goes on to the blank after ")"
+                int parens = 0;
+                for (size_t j = start; j < i; j++) parens += (args_string[j] == '(') - (args_string[j] == ')');
+                const bool in_call = parens > 0;
                 // start counting starting brackets, and stop when we hit depth 0 (brackets in the text of a comment are text)
                 size_t depth = 1;
                 while ((++i) <= args_len && depth > 0) {
@@ -112,6 +116,10 @@ struct Value {
                 if (depth > 0) {
                     fprintf(stderr, "parse error, unclosed [bracket (expected: ']') in \"%s\"\n", args_string);
                     exit(1);
+                }
+                if (in_call) {
+                    i--;
+                    continue;
                 }
                 // the closing bracket ends the token; what follows it (a blank, a comment, the next token) is examined in its own right
                 // (it used to be skipped unseen: "[a]# note" assembled the note, "[a][b]" lost a bracket)
